@@ -159,3 +159,6 @@ func (e *End) SetReadDeadline(t time.Time) error {
 	return nil
 }
 func (e *End) SetWriteDeadline(t time.Time) error { return nil }
+
+// Peer returns the other end.
+func (e *End) Peer() *End { return e.peer }
